@@ -82,10 +82,6 @@ func postprocessItem(item *models.Item) []*models.Item {
 		logger.Debug("HTML got extracted as asset, skipping", "item_id", item.GetShortID())
 		item.SetStatus(models.ItemCompleted)
 		return outlinks
-	} else if config.Get().DisableAssetsCapture && !domainscrawl.Enabled() {
-		logger.Debug("assets capture and domains crawl are disabled", "item_id", item.GetShortID())
-		item.SetStatus(models.ItemCompleted)
-		return outlinks
 	}
 
 	if item.GetURL().GetResponse() != nil && item.GetURL().GetResponse().StatusCode == 200 {
